@@ -419,6 +419,9 @@ def prog_pickle(w, rng):
     """C20: objects (structs, arrays, hybrid objects; with references; several per buffer, several buffers) pickled together,
     then reads, writes and allocations on both sides"""
     keys = []
+    if w.index % 50 == 7:
+        # the ordinary life of a context: a kernel was compiled and called in it before its objects are pickled
+        w.compile_kernel(rng.randrange(2))
     for n in range(rng.randint(1, 4)):
         b = rng.randrange(2)
         if rng.random() < 0.35:
